@@ -19,6 +19,7 @@ verus! {
 //@include prelude/str.rs
 //@include prelude/option.rs
 //@include prelude/try.rs
+//@include prelude/alloc.rs
 
 #[verifier::external_type_specification]
 #[verifier::external_body]
